@@ -194,6 +194,9 @@ class SupervisedOPF(OPF):
 
             k = self.subgraph.idx_nodes[j]
 
+            # The first node of the ordered list conquers the sample until a better one is found
+            conqueror = k
+
             if self.pre_computed_distance:
                 weight = self.pre_distances[self.subgraph.nodes[k].idx][
                     pred_subgraph.nodes[i].idx
